@@ -1,0 +1,35 @@
+//go:build verif
+
+package tagexpr
+
+import "strings"
+
+// VerifShape parses an expression and renders the parsed-and-sorted tree fully
+// parenthesised (verification hook, build tag verif).
+func VerifShape(expr string) (string, error) {
+	p, err := parseExpr(expr)
+	if err != nil {
+		return "", err
+	}
+	return verifRender(p.expr), nil
+}
+
+func verifRender(e ExprNode) string {
+	if e == nil {
+		return "_"
+	}
+	switch n := e.(type) {
+	case *groupExprNode:
+		return "G(" + verifRender(n.rightOperand) + ")"
+	case *funcExprNode:
+		args := make([]string, len(n.args))
+		for i, a := range n.args {
+			args[i] = verifRender(a)
+		}
+		return "F(" + strings.Join(args, ",") + ")"
+	}
+	if e.LeftOperand() == nil && e.RightOperand() == nil {
+		return e.String()
+	}
+	return "(" + verifRender(e.LeftOperand()) + " " + e.String() + " " + verifRender(e.RightOperand()) + ")"
+}
